@@ -251,6 +251,16 @@ theorem durHook_foreign_source_witness :
     (Decode.durHook ⟨false, true, true, true, true⟩ .int64 .duration).isPanic = true ∧
     (Decode.durHook ⟨false, true, true, true, true⟩ .namedString .duration).isPanic = true := by decide
 
+/-- `exponentTooLarge` (the guard in front of `resource.ParseQuantity`, fix a0f5161): `str[i+1:]`,
+`digits[0]`, `digits[1:]` are in range for every string. -/
+theorem exponentTooLarge_never_panics (str : Bytes) : (Decode.exponentTooLarge str).isPanic = false :=
+  Decode.exponentTooLarge_noPanic str
+
+-- "1e-999999999" is refused, "5Ei" and "1e3" go on to the parser
+example : Decode.exponentTooLarge [49, 101, 45, 57, 57, 57, 57, 57, 57, 57, 57, 57] = .ok true := by decide
+example : Decode.exponentTooLarge [53, 69, 105] = .ok false := by decide
+example : Decode.exponentTooLarge [49, 101, 51] = .ok false := by decide
+
 /-- `DecodeMetadata`'s struct-input branch after the `fix:` commit never panics. -/
 theorem decodeMetadataPrefix_never_panics (inp : Decode.Input) (castOk : Bool) :
     (Decode.decodeMetadataPrefix true inp castOk).isPanic = false := by
@@ -338,7 +348,8 @@ the identifiers at elaboration time). -/
 theorem cited_theorems_exist :
     Inventory.citedHere.all (· ∈ thm_names% [parseISO8601_never_panics, parseKey_never_panics,
       parseSymmetric_never_panics, chainLoop_never_panics, hookChain_never_panics,
-      decodeString_never_panics, normalize_never_panics, decodeCertificates_terminates]) = true := by decide +kernel
+      decodeString_never_panics, normalize_never_panics, decodeCertificates_terminates,
+      exponentTooLarge_never_panics]) = true := by decide +kernel
 
 /-- The dapr/kit functions that panic on part of their domain (closed under "hands its own parameter
 on without a `switch` on it") are exactly the two table look-ups of package crypto and the six
